@@ -13,17 +13,38 @@ use hc::{Args, Out, Rng, Tier};
 use p2panda_core::{SigningKey, Topic, VerifyingKey};
 use p2panda_discovery::DiscoveryProtocol;
 use p2panda_discovery::psi_hash::{Config, PsiHashDiscoveryProtocol, PsiHashError, PsiHashMessage};
-use p2panda_discovery::test_utils::TestSubscription;
+use p2panda_discovery::traits::LocalTopics;
 use p2panda_store::address_book::AddressBookStore;
 use p2panda_store::address_book::test_utils::{TestNodeInfo, TestTransportInfo};
 use p2panda_store::{SqliteStore, tx_unwrap};
 
 type Msg = PsiHashMessage<VerifyingKey, TestNodeInfo>;
-type Proto = PsiHashDiscoveryProtocol<SqliteStore, TestSubscription, VerifyingKey, TestNodeInfo>;
+type Proto = PsiHashDiscoveryProtocol<SqliteStore, FlipSub, VerifyingKey, TestNodeInfo>;
 
 const ALICE_BYTE: u8 = 0; // wire constants of the protocol as a peer implementation would use them
 const BOB_BYTE: u8 = 1;
 const N_NODES: usize = 48;
+
+/// Local topic source whose answer may change between queries within one session (a subscribe /
+/// unsubscribe landing mid-session): the first query returns `first`, every later one `later`.
+/// For ordinary cases `later == first`.
+#[derive(Debug, Default)]
+struct FlipSub {
+    first: HashSet<Topic>,
+    later: HashSet<Topic>,
+    calls: std::sync::atomic::AtomicUsize,
+}
+impl LocalTopics for FlipSub {
+    type Error = std::convert::Infallible;
+    async fn topics(&self) -> Result<HashSet<Topic>, Self::Error> {
+        let n = self.calls.fetch_add(1, std::sync::atomic::Ordering::SeqCst);
+        Ok(if n == 0 { self.first.clone() } else { self.later.clone() })
+    }
+}
+thread_local! {
+    /// `(party id, topic set answered from the second query on)` for the next sessions built.
+    static FLIP: RefCell<Option<(usize, Vec<usize>)>> = RefCell::new(None);
+}
 
 fn topic_bytes(k: usize) -> [u8; 32] {
     *blake3::hash(format!("c30-raw-topic-{k}").as_bytes()).as_bytes()
@@ -129,9 +150,15 @@ async fn make_proto(env: &Env, p: &Party, remote: usize) -> Proto {
             .unwrap();
         });
     }
-    let mut sub = TestSubscription::default();
+    let mut sub = FlipSub::default();
     for t in &p.topics {
-        sub.topics.insert(topic(*t));
+        sub.first.insert(topic(*t));
+    }
+    sub.later = sub.first.clone();
+    if let Some((who, later)) = FLIP.with(|f| f.borrow().clone()) {
+        if who == p.me {
+            sub.later = later.iter().map(|t| topic(*t)).collect();
+        }
     }
     PsiHashDiscoveryProtocol::with_config(
         store,
@@ -156,7 +183,7 @@ fn wire_stream(rx: mpsc::UnboundedReceiver<Vec<u8>>) -> impl futures::Stream<Ite
     rx.map(|b| postcard::from_bytes::<Msg>(&b))
 }
 
-fn err_word<T>(r: &Result<T, PsiHashError<SqliteStore, TestSubscription, VerifyingKey, TestNodeInfo>>) -> &'static str {
+fn err_word<T>(r: &Result<T, PsiHashError<SqliteStore, FlipSub, VerifyingKey, TestNodeInfo>>) -> &'static str {
     match r {
         Ok(_) => "ok",
         Err(PsiHashError::UnexpectedMessage) => "err:unexpected",
@@ -207,6 +234,11 @@ fn run_honest(rt: &tokio::runtime::Runtime, env: &mut Env, pa: &Party, pb: &Part
         pa.restricted as u8, pb.restricted as u8, pa.me, pb.me, list(",", &pa.topics), list(",", &pb.topics),
         book_str(&pa.book), book_str(&pb.book)
     );
+    // the model ignores this field: the correct protocol queries its topic source once per session
+    let req = match FLIP.with(|f| f.borrow().clone()) {
+        Some((who, later)) => format!("{req} flip={who}:{}", list(",", &later)),
+        None => req,
+    };
     let mut c = Case { req, ans: String::new(), nt: false, fails: vec![], counts: vec![] };
     let log: Log = Rc::new(RefCell::new(vec![]));
     let out = rt.block_on(async {
@@ -583,6 +615,10 @@ fn replay(rt: &tokio::runtime::Runtime, env: &mut Env, req: &str) -> Case {
         book: parse_book(kv(req, b)),
     };
     let half = *blake3::hash(req.as_bytes()).as_bytes();
+    if let Some(f) = req.split_whitespace().find_map(|t| t.strip_prefix("flip=")) {
+        let (who, later) = f.split_once(':').expect("flip=<id>:<topics>");
+        FLIP.with(|x| *x.borrow_mut() = Some((who.parse().unwrap(), parse_list(',', later))));
+    }
     match req.split_whitespace().next().unwrap_or("") {
         "honest" => run_honest(rt, env, &party("rA", "ia", "A", "bookA"), &party("rB", "ib", "B", "bookB")),
         "echo" => run_script(rt, env, false, &party("rB", "ib", "B", "bookB"), &[], Some(&parse_list(',', kv(req, "N"))), half),
@@ -647,6 +683,28 @@ fn main() {
         let (pa, pb) = gen_pair(&mut rng);
         let c = run_honest(&rt, &mut env, &pa, &pb);
         emit(&mut out, c, "honest");
+    }
+    // a subscribe / unsubscribe landing mid-session: from its second query on, one party's topic source
+    // answers with a set that gained one of the *other* party's topics (or lost a common one); a session
+    // must be decided on the set it advertised, so both peers still report A ∩ B of the first answers
+    for k in 0..n_honest / 4 {
+        let (pa, pb) = gen_pair(&mut rng);
+        let (me, mine, theirs) = if k % 2 == 0 { (pb.me, &pb.topics, &pa.topics) } else { (pa.me, &pa.topics, &pb.topics) };
+        let mut later = mine.clone();
+        match theirs.iter().find(|t| !mine.contains(t)) {
+            Some(t) if rng.chance(2, 3) => later.push(*t),
+            _ => {
+                if let Some(i) = later.iter().position(|t| theirs.contains(t)) {
+                    later.remove(i);
+                } else {
+                    later.extend(theirs.iter().copied());
+                }
+            }
+        }
+        FLIP.with(|f| *f.borrow_mut() = Some((me, canon(later))));
+        let c = run_honest(&rt, &mut env, &pa, &pb);
+        FLIP.with(|f| *f.borrow_mut() = None);
+        emit(&mut out, c, "honest-topics-change-mid-session");
     }
     for _ in 0..n_echo {
         let (_, pb) = gen_pair(&mut rng);
